@@ -1,4 +1,5 @@
 pub mod anchor;
+pub mod big;
 pub mod c01;
 pub mod c02;
 pub mod c03;
